@@ -178,6 +178,7 @@ package internal
 //
 //@ func ClearMessage
 //@   ensures[C18] unsettable_destination_is_refused: called("(reflect.Value).CanSet") && !lastresult("(reflect.Value).CanSet") ==> result != nil && !called("(reflect.Value).Set")
-//@   ensures[C18] otherwise_set_to_the_zero_value_once: lastresult("(reflect.Value).CanSet") ==> result == nil && calls("(reflect.Value).Set") == 1
+//@   ensures[C18] otherwise_set_to_the_zero_value_once: called("(reflect.Value).CanSet") && lastresult("(reflect.Value).CanSet") ==> result == nil && calls("(reflect.Value).Set") == 1
+//@   ensures[C18] success_means_it_was_set: result == nil ==> calls("(reflect.Value).Set") == 1
 //@   assert_call[C18] (reflect.Value).Set : the_destination_to_zero_of_its_own_type: arg0 == dest && arg1 == lastresult("reflect.Zero")
 //@   modifies external
